@@ -212,6 +212,19 @@ pub fn keys<const N: usize>(seed: u64) -> Arc<Keys<N>> {
     k
 }
 
+/// Range-constraint parameter set number `seed` (cached; generation costs ~0.5 s).
+pub fn range_params(seed: u64) -> Arc<zkchannels_crypto::proofs::RangeConstraintParameters> {
+    type P = zkchannels_crypto::proofs::RangeConstraintParameters;
+    static C: OnceLock<Mutex<HashMap<u64, Arc<P>>>> = OnceLock::new();
+    let c = C.get_or_init(|| Mutex::new(HashMap::new()));
+    if let Some(p) = c.lock().unwrap().get(&seed) {
+        return p.clone();
+    }
+    let p = Arc::new(P::new(&mut rng(0x7a6e_0000 + seed)));
+    c.lock().unwrap().insert(seed, p.clone());
+    p
+}
+
 pub fn g1_of(a: &G1Affine) -> G1Projective {
     a.into()
 }
